@@ -164,11 +164,13 @@ where
     >(
         i: S,
     ) -> IResult<S, Vec<Tree>, E> {
-        use nom::character::complete::{char, none_of, space0};
+        use nom::character::complete::{char, space0};
+        // `none_of` would treat a byte >= 0x80 of a `&[u8]` input as a two-byte char and slice past the end
+        let not_separator = |s: S| S::parse_template1::<_, E>(s, |c| !" \n".contains(c));
         context(
             "trees",
             cut(separated_list0(
-                delimited(space0, char('\n'), pair(S::sp, peek(none_of(" \n")))),
+                delimited(space0, char('\n'), pair(S::sp, peek(not_separator))),
                 Self::parse_tree,
             )),
         )
